@@ -56,7 +56,7 @@ func runC08(seed int64, n int, long bool) {
 		lockErrs := c08Handle(db, cfg.name, seed+int64(ci), rounds)
 		db.Close()
 		if lockErrs > 0 {
-			if cfg.name == "shared-cache-memory" {
+			if cfg.name == "shared-cache-memory" && listedKnown["kf_memory_shared_cache_locked"] {
 				known["property=C08 with the \":memory:\" path (SQLite shared-cache mode) operations fail with 'database table is locked' merely because another one is running (kf_memory_shared_cache_locked)"] += lockErrs
 			} else {
 				fail("c08-spurious-error", fmt.Sprintf("%s: %d operations failed merely because another one was running (database is locked / table is locked)", cfg.name, lockErrs), nil)
